@@ -542,7 +542,32 @@ def c32(idx: Index, rep: Report, tier: str) -> None:
     factory_threads_kind(idx, rep, "C32.5 def-use pipeline-stage-selected-for-the-running-kind")
 
 
-EXTRA3 = {"C32": c32, "C33": c33, "C31": c31, "C17": c17, "C25": c25, "C20": c20, "C27": c27, "C28": c28}
+# ------------------------------------------------------------------------------------ C36
+def c36(idx: Index, rep: Report, tier: str) -> None:
+    """Condensation = merge the whole chain (youngest value wins), *then* drop default-valued entries. A value merged
+    after the filter (or a walk that stops before the root) lets an older non-default value resurface behind a
+    descendant's reset to the default."""
+    from ..rules import attr_mutations
+
+    rule = "C36.5 T2 filter-after-complete-merge"
+    cs = idx.func("model.state.UPState._condense_state")
+    stores = [a for a in walk_no_nested(cs.node) if isinstance(a, ast.Assign) and any(norm(t) == "self._values" for t in a.targets)]
+    filtered = [a for a in stores if any(isinstance(c, ast.Call) and call_name(c) == "_is_nondefault" for c in ast.walk(a.value))]
+    uses_filter = any(isinstance(c, ast.Call) and call_name(c) == "_is_nondefault" for c in walk_no_nested(cs.node))
+    rep.check(uses_filter, rule, "_condense_state drops the default-valued entries of the merged chain", cs.loc(filtered[0]) if filtered else cs.loc(), construct="filter by _is_nondefault" if uses_filter else "no _is_nondefault filter", detail="" if uses_filter else "a condensed state keeps default-valued entries: it is unequal to the same valuation reached another way", function=cs.qualname)
+    if not filtered:
+        rep.inconclusive(rule, "_condense_state: the filtered assignment of self._values is not in the recognised form", cs.loc(), function=cs.qualname)
+        return
+    cfg = cfg_of(cs)
+    fnodes = [nd for nd in cfg.nodes if nd.ast is filtered[0]]
+    def _after(x):
+        nds = cfg.node_containing(x)
+        return bool(nds) and bool(fnodes) and any(cfg.path_avoiding(fn, nd, set()) is not None for fn in fnodes for nd in nds)
+    later = [c for c in walk_no_nested(cs.node) if c is not filtered[0] and _after(c) and ( (isinstance(c, ast.Call) and isinstance(c.func, ast.Attribute) and c.func.attr in ("setdefault", "update", "pop", "__setitem__") and norm(c.func.value) == "self._values") or (isinstance(c, ast.Assign) and any(isinstance(t, ast.Subscript) and norm(t.value) == "self._values" for t in c.targets)))]
+    rep.check(not later, rule, "nothing is merged into self._values after the default-valued entries were dropped", cs.loc(later[0]) if later else cs.loc(), construct=norm(later[0])[:80] if later else "no insertion besides the filtered assignment", detail="" if not later else "an ancestor's entries are added after the filter: a fluent that a descendant set back to its default (dropped by the filter) gets the ancestor's older value again; hash, equality and get_value change with the history", function=cs.qualname)
+
+
+EXTRA3 = {"C36": c36, "C32": c32, "C33": c33, "C31": c31, "C17": c17, "C25": c25, "C20": c20, "C27": c27, "C28": c28}
 
 
 def run_extra3(prop: str, idx: Index, rep: Report, tier: str) -> None:
